@@ -25,6 +25,7 @@ type staleCase struct {
 	BuildAfterAdd bool // explicit index.Build() after the later Add
 	ResetEQ       bool // EdgeQuery.Reset() after the later Add
 	ResetIndex    bool // index.Reset() before the later Add: the index then holds the later shapes only
+	Readd         bool // with ResetIndex: the SAME earlier shape objects are added again after the later ones (they get other ids)
 	Probes        []gen.P
 	Cfg           qcfg
 }
@@ -41,6 +42,7 @@ func genStale(t *rapid.T) staleCase {
 	c.BuildAfterAdd = rapid.Bool().Draw(t, "buildAfterAdd")
 	c.ResetEQ = rapid.Bool().Draw(t, "resetEQ")
 	c.ResetIndex = rapid.IntRange(0, 2).Draw(t, "resetIndex") == 0
+	c.Readd = c.ResetIndex && rapid.Bool().Draw(t, "readd")
 	// probes mostly around the later shapes, where the answers change
 	c.Probes = append(gen.ProbePoints(t, "pa", allVerts(c.After), 4), gen.ProbePoints(t, "pb", allVerts(c.Before), 2)...)
 	c.Cfg = qcfg{Limit: -1, Interiors: rapid.Bool().Draw(t, "int"), K: rapid.SampledFrom([]int{0, 1, 3}).Draw(t, "K"), Brute: rapid.IntRange(0, 3).Draw(t, "brute") == 0}
@@ -72,6 +74,12 @@ func runStale(c staleCase) ev.Outcome {
 			cpq[m].Contains(p)
 		}
 		ceq.CrossingsEdgeMap(p, c.Probes[1].Pt(), s2.CrossingTypeAll)
+		for m := range cpq {
+			cpq[m].ShapeContains(hsB[len(hsB)-1], p)
+		}
+		for _, s := range hsB {
+			ceq.Crossings(p, c.Probes[1].Pt(), s, s2.CrossingTypeAll)
+		}
 		eqCall(eq, "FindEdges", s2.NewMinDistanceToPointTarget(p), 0)
 	}
 	if c.ResetIndex {
@@ -81,6 +89,12 @@ func runStale(c staleCase) ev.Outcome {
 	}
 	for _, s := range hsA {
 		idx.Add(s)
+	}
+	if c.ResetIndex && c.Readd {
+		for _, s := range hsB {
+			idx.Add(s)
+		}
+		hs = append(hs, hsB...)
 	}
 	if c.BuildAfterAdd {
 		idx.Build()
@@ -92,6 +106,9 @@ func runStale(c staleCase) ev.Outcome {
 	finalSpecs := append(append([]gen.ShapeSpec{}, c.Before...), c.After...)
 	if c.ResetIndex {
 		finalSpecs = append([]gen.ShapeSpec{}, c.After...)
+		if c.Readd {
+			finalSpecs = append(finalSpecs, c.Before...)
+		}
 	}
 	fs := buildShapes(finalSpecs)
 	fidx := indexOfShapes(fs)
@@ -149,7 +166,7 @@ func runStale(c staleCase) ev.Outcome {
 			g := eqCall(eq, m, s2.NewMinDistanceToPointTarget(p), 0)
 			w := eqCall(feq, m, s2.NewMinDistanceToPointTarget(p), 0)
 			if d, _ := sameAnswer(m, c.Cfg, g, w); d != "" {
-				if optimizedDiffersFromBrute(c.Cfg, m, append(append([]gen.ShapeSpec{}, c.Before...), c.After...), func() any { return s2.NewMinDistanceToPointTarget(p) }, 0, w) {
+				if optimizedDiffersFromBrute(c.Cfg, m, finalSpecs, func() any { return s2.NewMinDistanceToPointTarget(p) }, 0, w) {
 					continue // C08's defect, not staleness
 				}
 				mism["EdgeQuery."+m]++
@@ -166,7 +183,7 @@ func runStale(c staleCase) ev.Outcome {
 		}
 	}
 	o.NonTrivial = changed
-	o.Class = fmt.Sprintf(c.Which+"/usedBefore=%v/buildAfterAdd=%v/resetEQ=%v/resetIndex=%v/edges=%s", c.UseBefore, c.BuildAfterAdd, c.ResetEQ, c.ResetIndex, bucket(totalEdges(c.Before)+totalEdges(c.After)))
+	o.Class = fmt.Sprintf(c.Which+"/usedBefore=%v/buildAfterAdd=%v/resetEQ=%v/resetIndex=%v/readd=%v/edges=%s", c.UseBefore, c.BuildAfterAdd, c.ResetEQ, c.ResetIndex, c.Readd, bucket(totalEdges(c.Before)+totalEdges(c.After)))
 	o.Counts = map[string]int{}
 	if len(mism) > 0 {
 		var ms []string
@@ -179,7 +196,7 @@ func runStale(c staleCase) ev.Outcome {
 			o.Counts[k] = n
 		}
 		sort.Strings(ms)
-		o.Err = fmt.Sprintf("query objects created before index.Add ignore the added shapes (usedBefore=%v buildAfterAdd=%v resetEQ=%v resetIndex=%v); methods that disagree: %s; first: %s", c.UseBefore, c.BuildAfterAdd, c.ResetEQ, c.ResetIndex, strings.Join(ms, ", "), first)
+		o.Err = fmt.Sprintf("query objects created before index.Add ignore the added shapes (usedBefore=%v buildAfterAdd=%v resetEQ=%v resetIndex=%v readd=%v); methods that disagree: %s; first: %s", c.UseBefore, c.BuildAfterAdd, c.ResetEQ, c.ResetIndex, c.Readd, strings.Join(ms, ", "), first)
 		o.Finding = "stale-query-object"
 	}
 	return o
